@@ -24,7 +24,9 @@ def errnos_for(ev_):
         return [E["ENOSPC"], E["EIO"], "short"]
     if n in ("read", "pread64", "readv", "preadv", "getdents64", "getdents"):
         return [E["EIO"]]
-    if n in ("rename", "renameat", "renameat2", "link", "linkat", "mkdir", "mkdirat", "symlink", "symlinkat"):
+    if n in ("rename", "renameat", "renameat2"):
+        return [E["ENOSPC"], E["EACCES"], E["EIO"], E["ENOENT"]]
+    if n in ("link", "linkat", "mkdir", "mkdirat", "symlink", "symlinkat"):
         return [E["ENOSPC"], E["EACCES"], E["EIO"]]
     if n in ("unlink", "unlinkat", "rmdir"):
         return [E["EACCES"], E["EIO"]]
@@ -70,6 +72,10 @@ def scenarios(ctx):
     S("write-cold", "write", {"op": "writer", "cache": "<C>", "key": "k", "opts": {"time": "1000"}, "chunks": [ctx.data(new)]},
       [], key="k", old=None, newent=newent(new), data=new, cold=True)
     S("write_hash", "write", {"op": "write_hash", "cache": "<C>", "data": ctx.data(new)}, warm, key=None, data=new)
+    # storing bytes again that other keys already rely on: a fault must not cost them their content
+    S("rewrite-existing-content", "write", {"op": "writer", "cache": "<C>", "key": "k", "opts": {"time": "1000"},
+                                            "chunks": [ctx.data(stored)]},
+      have, key="k", old=old_k, newent=newent(stored), data=stored)
     S("writer-declared-mmap", "write", {"op": "writer", "cache": "<C>", "key": "k", "opts": {"time": "1000", "size": len(d5k)},
                                         "chunks": [ctx.data(d5k[:1000]), ctx.data(d5k[1000:])]},
       have, key="k", old=old_k, newent=newent(d5k), data=d5k)
@@ -323,6 +329,27 @@ def judge(ctx, sc, cache, r, sig, det, extra, short, name):
             exp = ({"key": bk, "integrity": ref.sri("sha256", bd), "time": 42, "size": len(bd), "metadata": None, "raw_metadata": None}, bd)
             if not matches(md, rd, exp):
                 ctx.violation(sig + "|bystander", f"bystander {bk!r} affected by the fault: {ev.brief(md)} / {ev.brief(rd)}", det)
+    # ---- listing and lookups still agree; nothing but hash-named bucket files under index-v5
+    lst = ctx.call("sync@astd", {"op": "list", "cache": cache})
+    if ev.is_ok(lst) and not any("err" in i for i in lst["ok"]["items"]):
+        listed = [i["key"] for i in lst["ok"]["items"]]
+        if len(listed) != len(set(listed)):
+            ctx.violation(sig + "|list-duplicate", f"after the fault the listing yields a key twice: {sorted(listed)}", det)
+        for k in set(listed) | {"k"} | {b for b, _ in BY}:
+            md = ctx.call("sync@astd", {"op": "metadata", "cache": cache, "key": k})
+            found = ev.is_ok(md) and md["ok"]["entry"] is not None
+            if found != (k in listed):
+                ctx.violation(sig + "|list-vs-lookup", f"after the fault key {k!r} is {'listed' if k in listed else 'not listed'} "
+                              f"but lookup says {'found' if found else 'not found'}", det)
+    elif not sc.meta.get("cold"):
+        ctx.violation(sig + "|list-broken", f"after the fault list fails: {ev.brief(lst)}", det)
+    if os.path.isdir(idx):
+        import re as _re
+        for dp, _dn, fn in os.walk(idx):
+            for f in fn:
+                rel = os.path.relpath(os.path.join(dp, f), idx)
+                if not _re.fullmatch(r"[0-9a-f]{2}/[0-9a-f]{2}/[0-9a-f]{36}", rel):
+                    ctx.violation(sig + "|stray-index-file", f"after the fault a file that is not a bucket is left in the index: {rel}", det)
     # ---- once the fault is gone the same call succeeds
     if retry_needed:
         ctx.count("re_executions")
